@@ -11,7 +11,8 @@
 (* Input (environment variable C17_HIST): array of                         *)
 (*   { "W":   { "root": id, "sites": [id..], "leaves": [id..],             *)
 (*              "attrs": { rid: {"hidden": bool, "pairs": [[k, v]..]} } }, *)
-(*     "ops": [ {op, site, path, id, query, key, val, star} .. ] }         *)
+(*     "ops": [ {op, site, path, id, query, key, val, star,                *)
+(*               method, con, host, port} .. ] }                           *)
 (* with every string that is not an id given as array of one-character     *)
 (* strings.  An operation outside the domain of the statement (see         *)
 (* InDomain) is answered with [kind |-> "domain"] and not applied: the     *)
@@ -45,7 +46,7 @@ ASSUME /\ JsonSerialize(IOEnv.C17_OUT, [n \in 1..Len(Hist) |-> Expected(Hist[n])
        /\ PrintT(<<"C17EVAL", Len(Hist)>>)
 
 (* nothing to explore: one state, no steps *)
-EvalInit == st = <<>> /\ prev = <<>> /\ act = <<>> /\ exp = <<>>
+EvalInit == st = <<>> /\ prev = <<>> /\ act = <<>> /\ exp = <<>> /\ asked = {}
 EvalNext == FALSE /\ UNCHANGED vars
 EvalSpec == EvalInit /\ [][EvalNext]_vars
 =============================================================================
